@@ -140,7 +140,7 @@ def _bounded_imap(pool, tasks, batch=600):
 
 def explore(consts, init_state, calls_at, model_states, *, caching=False, procs=16, max_records=None,
             probe=None, vertex_cls=None, keep_records=True, probe_filter=None, cache_mode=None,
-            sink=None, probe_sink=None, chunk=30000, confirmed_out=None, probe_chunk=(5000, 150000), impl=None):
+            sink=None, probe_sink=None, chunk=30000, confirmed_out=None, probe_chunk=(2500, 120000), impl=None):
     """probe: a picklable spec for harness.probes.run, evaluated once in every confirmed state
     (optionally only where probe_filter(state_key) is true).
     sink / probe_sink: when given, records / probed entries are handed over in chunks and not kept."""
